@@ -61,6 +61,10 @@ def value_of(rd):
     return v
 
 
+_RENDERED = 0
+_READOUT: list = []          # the settings of the previous rendering
+
+
 def render_event(rd):
     v = value_of(rd)
     table = TABLES[rd['table']]
@@ -69,6 +73,28 @@ def render_event(rd):
         kw = dict(value=v, unit=rd['unit'], precision=rd['p'], use_exp_prefix=table is not None)
         if table is not None:
             kw['exp_prefixes'] = dict(table)
+        global _RENDERED
+        _RENDERED += 1
+        prev = rd.get('readout_prev')
+        if prev is None and _RENDERED % 3 == 0 and _READOUT:
+            prev = _READOUT[0]
+            rd['readout_prev'] = {k_: (v_ if k_ != 'exp_prefixes' else {str(a): b for a, b in v_.items()}) for k_, v_ in prev.items()}   # replayable
+        if prev is not None:
+            # a read-out that is updated: ONE ScientificFloat object (a mutable dataclass) that was rendered with other settings before gets
+            # this value, unit, precision and table assigned and is rendered again
+            pk = dict(prev)
+            if 'exp_prefixes' in pk:
+                pk['exp_prefixes'] = {int(a): b for a, b in pk['exp_prefixes'].items()}
+            sf = ScientificFloat(**pk)
+            str(sf)
+            default_prefixes = dict(ScientificFloat(value=1.0).exp_prefixes)
+            for k_, v_ in kw.items():
+                setattr(sf, k_, v_)
+            if 'exp_prefixes' not in kw:
+                sf.exp_prefixes = default_prefixes
+            _READOUT[:] = [kw]
+            return str(sf)
+        _READOUT[:] = [kw]
         return str(ScientificFloat(**kw))
     if kind == 'helper':
         fn = getattr(dsp, rd['fn'])
